@@ -27,7 +27,7 @@ QUOTE = {
 NW_TOKENS = [t for t in TOKENS if "</nowiki" not in t] + ["{{t|x}}", "&"]
 NW_TOKENS.remove("&")
 NW_CORE = [t for t in CORE if "</nowiki" not in t] + ["{{t|x}}"]
-EMBED = ["top", "arg", "link", "item", "cell"]
+EMBED = ["top", "arg", "link", "item", "cell", "pagestart", "linestart", "cell_own_line"]
 CM_TOKENS = [t for t in TOKENS if t not in ("-->", "<!--", "<nowiki>")]
 CM_INNER = [t for t in CORE if t not in ("-->", "<nowiki>")] + ["{{t|x}}"]
 CM_PAIR_Q = ["a", "\n", "{{", "}}", "|", "[[", "<b>", "<!--"]
@@ -55,6 +55,12 @@ def embed(c, e):
         return "{{t|" + nw + "}}"
     if e == "link":
         return "[[a|" + nw + "]]"
+    if e == "pagestart":
+        return nw
+    if e == "linestart":
+        return "p\n" + nw + "\nz"
+    if e == "cell_own_line":
+        return "{|\n|\n" + nw + "\n|}"
     if e == "item":
         return "*" + nw
     return "{|\n|" + nw + "\n|}"
@@ -75,7 +81,8 @@ def check_nowiki(ctx, c, e):
     ctx.start_page("Tt")
     got = ctx.expand(text, template_fn=tf)
     want = {"top": "x" + q + "y", "arg": "[" + q + "]", "link": "[[a|" + q + "]]", "item": "*" + q,
-            "cell": "{|\n|" + q + "\n|}"}[e]
+            "cell": "{|\n|" + q + "\n|}", "pagestart": q, "linestart": "p\n" + q + "\nz",
+            "cell_own_line": "{|\n|\n" + q + "\n|}"}[e]
     if got != want:
         out.append(("expand_quotes_exactly", got, want))
     exp_calls = ["t"] if e == "arg" else []
@@ -90,6 +97,12 @@ def check_nowiki(ctx, c, e):
         wantd = ["ROOT", {"largs": [["Tt"]]}, [["TEMPLATE", {"largs": [["t"], [q]]}]]]
     elif e == "link":
         wantd = ["ROOT", {"largs": [["Tt"]]}, [["LINK", {"largs": [["a"], [q]]}]]]
+    elif e == "pagestart":
+        wantd = ["ROOT", {"largs": [["Tt"]]}, [q]]
+    elif e == "linestart":
+        wantd = ["ROOT", {"largs": [["Tt"]]}, ["p\n" + q + "\nz"]]
+    elif e == "cell_own_line":
+        wantd = ["ROOT", {"largs": [["Tt"]]}, [["TABLE", [["TABLE_ROW", [["TABLE_CELL", ["\n" + q + "\n"]]]]]]]]
     elif e == "item":
         wantd = ["ROOT", {"largs": [["Tt"]]}, [["LIST", {"sarg": "*"}, [["LIST_ITEM", {"sarg": "*"}, [q]]]]]]
     else:
